@@ -79,7 +79,9 @@ def check_program(item):
         res["status"] = "cbuild_failed"
         res["shapes"] = []
         return res
-    suffix_calls = [("F", bytes([reps[0]])), ("F", bytes([reps[-1], reps[0]]))] + ([("E",)] if am.eof else [])
+    # a byte the start state asks for: a machine that wrongly restarts after a terminal code then makes visible progress
+    sb = next((ord(v) for t in am.dfa.starting_state.transitions if not t.is_fallthrough for v in sorted(x for x in t.on_values if isinstance(x, str))), reps[0])
+    suffix_calls = [("F", bytes([sb]))] + ([("F", bytes([reps[0]]))] if reps[0] != sb else []) + [("F", bytes([reps[-1], sb]))] + ([("E",)] if am.eof else [])
     suffixes = [()] + [(x,) for x in suffix_calls] + list(itertools.product(suffix_calls, repeat=2))
     with cp:
         hist = []
